@@ -4,5 +4,6 @@ import O2P.Props.C09
 import O2P.Props.C10
 import O2P.Props.C11
 import O2P.Props.C12
+import O2P.Props.C13
 import O2P.Props.C15
 import O2P.Props.C16
